@@ -48,7 +48,7 @@ class LConn(object):
 class LifeGen(object):
     def __init__(self, seed, napps=2, steps=60, restarts=True, use_time=True, names=None, body_prefix="L",
                  p_illegal=0.03, list_cmd=True, closings=True, cross_app_mailboxes=False, probes=True, two_apps=False, explicit_sweeps=False,
-                 bad_client_version=True, **ignored):
+                 bad_client_version=True, jumps=False, **ignored):
         self.r = random.Random(seed * 2654435761 % (1 << 32) + 17)
         self.seed = seed
         r = self.r
@@ -57,8 +57,13 @@ class LifeGen(object):
         self.name = r.choice(pool[:4])
         # three in ten histories have two channels alive side by side (two names, two client-chosen ids); sides and
         # connections work in both, and now and then a connection claims in one and opens in the other
-        self.nchan = 2 if (r.random() < 0.3 and len(pool) > 1) else 1
+        k = r.random()
+        self.nchan = 1 if (k < 0.62 or len(pool) < 2) else (2 if (k < 0.87 or len(pool) < 3) else 3)
         self.names = [self.name] + [n for n in pool[:4] if n != self.name][:self.nchan - 1]
+        # half of the multi-channel histories use identifiers of which one is the beginning of the other
+        self.prefix_ids = self.nchan > 1 and r.random() < 0.5
+        if self.prefix_ids:
+            self.names[1] = self.name + "0"
         self.steps = steps
         self.restarts = restarts
         self.use_time = use_time
@@ -70,8 +75,9 @@ class LifeGen(object):
         self.probes = probes
         self.explicit_sweeps = explicit_sweeps
         self.bad_cv = bad_client_version
+        self.jumps = jumps
         self.conns = []
-        self.told = {(a, k): [] for a in self.apps for k in range(2)}       # connections whose claim may have been answered
+        self.told = {(a, k): [] for a in self.apps for k in range(3)}       # connections whose claim may have been answered
         self.used_sides = {a: [] for a in self.apps}
         self.n = 0
         self.nb = 0
@@ -82,13 +88,16 @@ class LifeGen(object):
         self.h.append(list(s))
 
     def mb(self, app, chan=0):
-        base = "mL" if chan == 0 else "mK"
-        return base if self.cross_app else "%s.%d" % (base, self.apps.index(app))
+        base = ["mL", "mK", "mJ"][chan]
+        v = base if self.cross_app else "%s.%d" % (base, self.apps.index(app))
+        if chan == 1 and self.prefix_ids:
+            v = self.mb(app, 0) + "0"
+        return v
 
     def chan_of(self, c):
         """the channel a command of c is about: its own, now and then the other one"""
         if self.nchan > 1 and self.r.random() < 0.12:
-            return 1 - c.chan
+            return self.r.choice([k for k in range(self.nchan) if k != c.chan])
         return c.chan
 
     def live(self):
@@ -248,7 +257,10 @@ class LifeGen(object):
         for c in self.conns:
             c.alive = False
         self.emit("restart")
-        if self.r.random() < 0.4:
+        if self.r.random() < 0.2:
+            # nobody comes back for a long while: the restarted service is alone with the rows it found
+            self.emit("adv", self.r.choice([610, 670, 700, 1000]))
+        elif self.r.random() < 0.5:
             # the first connections after a restart only bind (or ask for the list) and sit there while a sweep
             # passes: the server has rows for their app but has not built any object for them yet
             r = self.r
@@ -268,6 +280,10 @@ class LifeGen(object):
 
     def time(self):
         if not self.use_time:
+            return
+        if self.jumps and self.r.random() < 0.12:
+            # the process is suspended / the reactor busy for a while: one late sweep instead of several on time
+            self.emit("jump", self.r.choice([610, 670, 700, 1000, 1300]) + self.r.choice([0, 0.125]))
             return
         dt = self.wchoice(TIMES, TIME_W)
         self.emit("adv", dt + self.r.choice([0, 0, 0.125, -0.125]))
